@@ -217,7 +217,32 @@ def _okind(o):
     return scalar_kind(o)
 
 
+_NP_OPS = {'Add': np.add, 'Sub': np.subtract, 'Mult': np.multiply, 'Pow': np.power, 'FloorDiv': np.floor_divide, 'Mod': np.mod,
+           'BitAnd': np.bitwise_and, 'BitOr': np.bitwise_or, 'BitXor': np.bitwise_xor, 'LShift': np.left_shift, 'RShift': np.right_shift}
+
+
+def _concrete_int(x):
+    """concrete integer/bool ndarray (or python int) behind a value, else None"""
+    if isinstance(x, (bool, int, np.integer)) and not isinstance(x, Fraction):
+        return x
+    c = x if isinstance(x, np.ndarray) else getattr(x, 'concrete', None)
+    if isinstance(c, np.ndarray) and c.dtype.kind in 'biu' and getattr(x, 'elem_unmodified', True):
+        return c
+    return None
+
+
 def binop(ex, on, l, r):
+    # concrete integer arrays: evaluate with numpy itself (exact, including fixed-width wrap-around of small integer dtypes)
+    cl, cr = _concrete_int(l), _concrete_int(r)
+    if cl is not None and cr is not None and on in _NP_OPS and (isinstance(cl, np.ndarray) or isinstance(cr, np.ndarray)):
+        try:
+            with np.errstate(all='ignore'):
+                res = _NP_OPS[on](cl, cr)
+            if isinstance(res, np.ndarray) and res.dtype.kind in 'biu':
+                out = lift(res)
+                return _tag(out, on, l, r)
+        except (TypeError, ValueError):
+            pass
     kl, kr = _okind(l), _okind(r)
     # python scalars do not upcast arrays within the same kind class; across classes they do
     k = kmax(kl, kr)
@@ -365,9 +390,35 @@ def norm_index(ex, i, n):
     return z3.If(iz < 0, iz + nz, iz)
 
 
+def _conc_index(c):
+    from .interp import SliceV
+    if isinstance(c, SliceV):
+        parts = [conc(x) for x in (c.lo, c.hi, c.step)]
+        if all(p is None or isinstance(p, int) for p in parts):
+            return slice(*parts)
+        return None
+    c = conc(c)
+    return c if isinstance(c, int) and not isinstance(c, bool) else None
+
+
 def getitem(ex, a, idx):
     from .interp import SliceV, NEWAXIS, Ext
     a = lift(a)
+    cc = getattr(a, 'concrete', None)
+    if isinstance(cc, np.ndarray) and getattr(a, 'elem_unmodified', True) and not isinstance(a, MaskSel):
+        it = idx if isinstance(idx, tuple) else (idx,)
+        ci = [_conc_index(c) for c in it]
+        if all(c is not None for c in ci):
+            try:
+                r = cc[tuple(ci)]
+            except IndexError:
+                raise SymRaise('IndexError')
+            if isinstance(r, np.ndarray):
+                out = lift(r)
+                out.prov, out.view = a.prov, True
+                if getattr(a, 'meta', None) and 'arange' in a.meta and len(ci) == 1 and isinstance(ci[0], slice) and ci[0] == slice(None, None, None):
+                    out.meta = a.meta
+                return out
     if isinstance(a, MaskSel):
         raise Unsupported('indexing a mask selection')
     if not isinstance(idx, tuple):
@@ -443,6 +494,12 @@ def getitem(ex, a, idx):
 
 def setitem(ex, a, idx, v):
     from .interp import SliceV
+    a.elem_unmodified = False
+    if hasattr(a, 'concrete'):
+        try:
+            del a.concrete
+        except AttributeError:
+            pass
     if a.view:
         raise Unsupported('store through a view')
     if isinstance(a, MaskSel):
@@ -492,8 +549,12 @@ def setitem(ex, a, idx, v):
             # indices start + j*step + d[j] with 0 <= d[j] < step are distinct and invertible: j = (i-start) div step
             jj = ex.newvar('j', 'int')
             dj = tonum(d.elem((jj,)))
-            if not (ex.entails(tonum(step) > 0) and ex.entails(z3.Implies(z3.And(jj >= 0, jj < tonum(n)), z3.And(dj >= 0, dj < tonum(step))))):
+            if not ex.entails(tonum(step) > 0):
                 raise Unsupported('scatter index not of block form')
+            inblock = z3.Implies(z3.And(jj >= 0, jj < tonum(n)), z3.And(dj >= 0, dj < tonum(step)))
+            if not ex.entails(inblock):
+                # the block-form semantics below is valid only if every offset stays inside its block: recorded as an obligation
+                ex.defined(inblock, 'scatter index leaves its block (offset outside [0, block size))')
             ex.defined(z3.Implies(z3.And(jj >= 0, jj < tonum(n)), tonum(start) + jj * tonum(step) + dj < tonum(a.shape[0])), 'scatter index out of bounds')
 
             def elem(i, start=start, step=step, d=d, n=n):
